@@ -1,4 +1,4 @@
-\* The free tree of store.c with its node and carrier pools at small constants: every history (no bound on length).
+\* The free tree of store.c with its pools at small constants, thorough tier: every history over 6 sizes, one piece per size (no bound on length).
 \* T = 2 (1..3 keys per node), 2 nodes and 2 carriers per housekeeping page (both with slack at the end of the page).
 SPECIFICATION Spec
 CONSTANTS
@@ -8,7 +8,7 @@ CONSTANTS
   PartBytes = 1
   CarBytes = 4
   KeySet = {1, 2, 3, 4, 5, 6}
-  MaxCount = 2
+  MaxCount = 1
   FullCheck = TRUE
   Probe = "none"
 INVARIANT TreeInv
